@@ -21,7 +21,8 @@ RULE = ("case = series of 5..80 points (uniform / non-uniform; smooth, noisy or 
         "omitted) x {to_function, smooth, spline_smooth}. non-trivial: s > 0 on non-affine data with a residual that "
         "actually changed the series, or an interpolation case on non-affine data; distinct by case index."
         " Also: requests after random histories, a second to_function() after an earlier one followed by further processing or by an in-place write through the arrays get() hands out, series centred to zero mean to rounding, levels far from zero."
-        " Round-4 classes: a 'long' kind - 1001..2500 samples, two series agreeing at both ends and differing in the middle fitted one after the other with the same s (two objects, the same object before / after the event, the function), each judged against its own samples.")
+        " Round-4 classes: a 'long' kind - 1001..2500 samples, two series agreeing at both ends and differing in the middle fitted one after the other with the same s (two objects, the same object before / after the event, the function), each judged against its own samples."
+        " Round-5 classes: a 'huge' kind - 33 000..70 000 samples (smooth signal + tiny noise, s well above the noise energy).")
 REQUIRED_MONITORS = ["c16:long_series", "c16:to_function", "c16:smooth_residual", "c16:smooth_zero", "c16:affine", "c16:default_s"]
 ASSUMPTIONS = ["FITPACK non-convergence warnings discard the run (the property's quantifier)"]
 NSHARDS = 16
